@@ -517,7 +517,7 @@ func runC02(p *Program, r *Result) {
 						if fa, ok := st.Addr.(*ssa.FieldAddr); ok && fieldName(fa.X.Type(), fa.Field) == "err" {
 							sv := pa.Resolve(st.Val)
 							v := short(rtb.Term(sv).String())
-							state = isFreshNonSentinelError(sv) || v == "io.EOF" || strings.HasPrefix(v, "fmt.Errorf(")
+							state = isFreshNonSentinelError(sv) || v == "io.EOF" || strings.HasPrefix(v, "fmt.Errorf(") || p.definitelyNonNil(stripConv(sv), 0)
 						}
 					}
 				}
